@@ -143,6 +143,9 @@ func (p *Path) BindAtom(a string, c int64, w int) {
 	p.Atoms[a] = &AtomInfo{W: w, Lo: c, Hi: c}
 }
 
+// BindBit binds one bit of an atom.
+func (p *Path) BindBit(a string, i int, val bool) { p.bindBit(Bit{K: BSym, A: a, I: i}, val) }
+
 // norm re-resolves the bits of v against the current bindings.
 func (p *Path) norm(v *Int) *Int {
 	changed := false
